@@ -75,6 +75,8 @@ type shapeChecker struct {
 	idIdx  map[string]int
 	msgs   map[string]Validation
 	count  int
+	// tracePaths: expected resultPath (normalised) per validation that is one atomic constraint
+	tracePaths map[string]string
 }
 
 func (sc *shapeChecker) fail(label string, g *smt.Term, what string) {
@@ -134,6 +136,12 @@ func (sc *shapeChecker) checkResult(v Val, g *smt.Term, nested bool) {
 					sc.fail("C12.result-shape.trace-entry", ge, "trace entry "+k+" is not a string")
 				} else if k == "component" && string(fs) == "" {
 					sc.fail("C12.result-shape.trace-entry", ge, "trace entry names no component")
+				} else if k == "resultPath" && !nested {
+					name, _ := getField(v, "sourceShapeName")
+					ns, _ := name.(ast.String)
+					if want, ok := sc.tracePaths[string(ns)]; ok && normTracePath(string(fs)) != want {
+						sc.fail("C12.result-shape.trace-entry", ge, "trace entry names the path "+string(fs)+", the constraint is on "+want)
+					}
 				}
 			}
 		}
@@ -403,6 +411,7 @@ func (c *Checker) CheckShapes(p Program, sc Scope, code string, opts ShapeOption
 	for _, v := range p.Validations {
 		chk.names[v.Name] = true
 		chk.msgs[v.Name] = v
+		chk.tracePaths = ExpectedTracePaths(p)
 	}
 	for i, id := range g.IDs {
 		chk.idIdx[id] = i
@@ -477,7 +486,7 @@ func (c *Checker) CheckShapes(p Program, sc Scope, code string, opts ShapeOption
 	problems := NativeShapeProblems(outs[0].Report, p, g, m, opts)
 	out.Actual = problems
 	// what a replay needs to re-check the real report without the solver's model
-	out.Replay = map[string]any{"obligations": opts, "profile_name": p.Name}
+	out.Replay = map[string]any{"obligations": opts, "profile_name": p.Name, "trace_paths": ExpectedTracePaths(p)}
 	if opts.Locations {
 		locs := map[string]any{}
 		for i, id := range g.IDs {
@@ -517,6 +526,7 @@ func NativeShapeProblems(report string, p Program, g *Graph, m map[string]uint64
 		return []string{"C12.result-shape: not exactly one report node"}
 	}
 	rn := enc[0].(map[string]any)
+	tracePaths := ExpectedTracePaths(p)
 	var nameProblem []string
 	if want := p.Name; want != "" {
 		if got, _ := rn["profileName"].(string); got != want {
@@ -586,7 +596,9 @@ func NativeShapeProblems(report string, p Program, g *Graph, m map[string]uint64
 				if c, _ := tm["component"].(string); c == "" {
 					problems = append(problems, "C12.result-shape.trace-entry")
 				}
-				if _, ok := tm["resultPath"].(string); !ok {
+				if rp, ok := tm["resultPath"].(string); !ok {
+					problems = append(problems, "C12.result-shape.trace-entry")
+				} else if want, known := tracePaths[name]; known && !nested && normTracePath(rp) != want {
 					problems = append(problems, "C12.result-shape.trace-entry")
 				}
 			}
@@ -675,7 +687,7 @@ func sameLocation(got, want map[string]any) bool {
 }
 
 // ReplayShapeProblems re-checks a stored shape counterexample on a freshly produced real report.
-func ReplayShapeProblems(report string, validationNames []string, expectedLocations map[string]any, checkShape bool) []string {
+func ReplayShapeProblems(report string, validationNames []string, expectedLocations map[string]any, checkShape bool, tracePaths map[string]string) []string {
 	var doc []map[string]any
 	dec := json.NewDecoder(strings.NewReader(report))
 	dec.UseNumber()
@@ -724,6 +736,11 @@ func ReplayShapeProblems(report string, validationNames []string, expectedLocati
 				if c, _ := tm["component"].(string); c == "" {
 					problems = append(problems, "C12.result-shape.trace-entry")
 				}
+				if want, known := tracePaths[name]; known && !nested {
+					if rp, _ := tm["resultPath"].(string); normTracePath(rp) != want {
+						problems = append(problems, "C12.result-shape.trace-entry")
+					}
+				}
 			}
 			if want, ok := expectedLocations[focus]; ok && expectedLocations != nil && !nested {
 				if comp, _ := tm["component"].(string); comp != "rego" {
@@ -758,4 +775,62 @@ func ReplayShapeProblems(report string, validationNames []string, expectedLocati
 	}
 	sort.Strings(problems)
 	return dedupe(problems)
+}
+
+
+// ExpectedTracePaths: for every validation that is one atomic constraint, the path its trace
+// entries name - the expanded predicates in the order written, inverse steps marked with ^ -
+// compared modulo blanks and parentheses.
+func ExpectedTracePaths(p Program) map[string]string {
+	out := map[string]string{}
+	for _, v := range p.Validations {
+		f := v.F
+		for {
+			switch x := f.(type) {
+			case And:
+				if len(x.Fs) == 1 {
+					f = x.Fs[0]
+					continue
+				}
+			case PC:
+				if len(x.Fs) == 1 {
+					f = x.Fs[0]
+					continue
+				}
+			case Atom:
+				out[v.Name] = normTracePath(tracePathOf(x.Path))
+			}
+			break
+		}
+	}
+	return out
+}
+
+func tracePathOf(p Path) string {
+	switch x := p.(type) {
+	case PProp:
+		if x.Inverse {
+			return PredIRI(x.Pred) + "^"
+		}
+		return PredIRI(x.Pred)
+	case PType:
+		return "@type"
+	case PSeq:
+		var parts []string
+		for _, k := range x.Parts {
+			parts = append(parts, tracePathOf(k))
+		}
+		return strings.Join(parts, "/")
+	case PAlt:
+		var parts []string
+		for _, k := range x.Parts {
+			parts = append(parts, tracePathOf(k))
+		}
+		return strings.Join(parts, "|")
+	}
+	return ""
+}
+
+func normTracePath(s string) string {
+	return strings.NewReplacer(" ", "", "(", "", ")", "", "\t", "", "\n", "").Replace(s)
 }
